@@ -92,7 +92,7 @@ def C05(run):
     run.deductive(keys=[U + 'stabilizer_measure', U + 'stabilizer_project', U + 'map_to_state', U + 'clifford_rotate', ST + 'CliffordMap.to_state#r',
                         ST + 'CliffordMap.to_state#none', ST + 'StabilizerState.copy', ST + 'StabilizerState.measure#list', ST + 'StabilizerState.measure#state',
                         ST + 'StabilizerState.postselect', 'pyclifford/circuit.py::MeasureLayer.forward', U + 'stabilizer_postselection', PA + 'PauliList.rotate_by#state', PA + 'PauliList.transform_by#state', GATES[3], GATES[4], GATES[5],
-                        U + 'stabilizer_projection_trace', U + 'mask', PA + 'PauliList.rotate_by#mask', PA + 'PauliList.transform_by#mask'] + LOCAL_STATE + RANDOM_STATE + RANDOM_CLIFFORD + MBACK + ANY_GATE + [ST + 'stabilizer_state#list'],
+                        U + 'stabilizer_projection_trace', U + 'mask', PA + 'PauliList.rotate_by#mask', PA + 'PauliList.transform_by#mask'] + LOCAL_STATE + RANDOM_STATE + RANDOM_CLIFFORD + MBACK + ANY_GATE + [ST + 'stabilizer_state#list', ST + 'random_bit_state'],
                   lemmas=MEASURE_LEMMAS + MASK_LEMMAS + ['acq_drop2', 'rot_preserve', 'acq_local'])
     run.bounded_check('c05_histories', _b().c05_histories, Nmax=3, walks=q(run, 45, 2500), steps=q(run, 10, 30))
     run.bounded_check('c06_measure', _b().c06_measure, Nmax=2, count=q(run, 25, 400), reps=q(run, 2, 5))
